@@ -99,7 +99,20 @@ def solve_by_instantiation(axioms, pc, goal, timeout_ms=10000):
     for p in pc:
         if _contains_quant(p):
             quant.extend(_top_foralls(p))
-    base = list(axioms) + ground + [neg]
+    # the skolemised negated goal may still contain `not exists m. B` conjuncts
+    # (goal of shape forall j. A => exists m. B): they are universal facts too
+    neg_ground = []
+    for cj in _conjuncts(neg):
+        if z3.is_not(cj) and z3.is_quantifier(cj.arg(0)) and not cj.arg(0).is_forall():
+            q = cj.arg(0)
+            names = [q.var_name(i) for i in range(q.num_vars())]
+            sorts = [q.var_sort(i) for i in range(q.num_vars())]
+            vs = [z3.Const(f"nq!{nm}!{q.get_id()}", s) for nm, s in zip(names, sorts)]
+            body = z3.substitute_vars(q.body(), *reversed(vs))
+            quant.append((None, z3.ForAll(vs, z3.Not(body))))
+        else:
+            neg_ground.append(cj)
+    base = list(axioms) + ground + neg_ground
     insts = []
     for _round in range(2):
         terms = {}
@@ -126,6 +139,15 @@ def solve_by_instantiation(axioms, pc, goal, timeout_ms=10000):
     if r == z3.sat:
         return "sat", s.model()
     return "unknown", None
+
+
+def _conjuncts(t):
+    if z3.is_and(t):
+        out = []
+        for ch in t.children():
+            out.extend(_conjuncts(ch))
+        return out
+    return [t]
 
 
 _qcache = {}
